@@ -86,6 +86,21 @@ def gen(item, rng, tier):
         # unique, attributable write values
         val = ((i + 1) * 0x0101010101010101 ^ rng.getrandbits(64)) & ((1 << (8 * size)) - 1)
         ops.append({'op': rng.choice(['r', 'w', 'w']), 'path': path, 'addr': addr, 'size': size, 'value': val})
+    if not big and rng.random() < 0.2:
+        # re-configuration inside the history: a window is moved, two controllers swap places in the list, a controller is added late
+        for _ in range(rng.randrange(1, 5)):
+            k = rng.random()
+            at = rng.randrange(1, len(ops))
+            if k < 0.45:
+                rc = {'op': 'move', 'dev': rng.randrange(len(devs)), 'delta': rng.choice([-0x40, -8, -1, 1, 4, 0x40, 0x1000])}
+            elif k < 0.75 and len(devs) > 1:
+                a, b = rng.sample(range(len(devs)), 2)
+                rc = {'op': 'swap', 'a': a, 'b': b}
+            else:
+                s2 = rng.choice(SIZES)
+                rc = {'op': 'add', 'begin': cur + rng.choice([0, 0, 3, -2]), 'size': s2, 'fill': bytes(rng.getrandbits(8) for _ in range(16)).hex()}
+                cur += s2 + 3
+            ops.insert(at, rc)
     return {'scenario': 'hub', 'style': style, 'devices': devs, 'ops': ops, 'via_add_memory': bool(rng.getrandbits(1))}
 
 
@@ -184,7 +199,34 @@ def run(case):
         return True
 
     ticks = 0
+    ctrls = list(arm.mem.memories[:len(rams)])           # parallel to model.devs / rams / len0
     for idx, op in enumerate(case['ops']):
+        if op['op'] in ('move', 'swap', 'add'):
+            count('fault.reconfigure-' + op['op'])
+            if op['op'] == 'move' and op['dev'] < len(ctrls):
+                j = op['dev']
+                b, e, mb = model.devs[j]
+                if b + op['delta'] >= 0 and not (b + op['delta'] < CODE + 0x100 and CODE < e + op['delta']):
+                    ctrls[j].beginning += op['delta']
+                    ctrls[j].end += op['delta']
+                    model.devs[j] = (b + op['delta'], e + op['delta'], mb)
+            elif op['op'] == 'swap' and max(op['a'], op['b']) < len(case['devices']):
+                a, b = op['a'], op['b']
+                ia, ib = arm.mem.memories.index(ctrls[a]), arm.mem.memories.index(ctrls[b])
+                arm.mem.memories[ia], arm.mem.memories[ib] = arm.mem.memories[ib], arm.mem.memories[ia]
+                for lst in (model.devs, rams, len0, ctrls):
+                    lst[a], lst[b] = lst[b], lst[a]
+            elif op['op'] == 'add' and not (op['begin'] < CODE + 0x100 and CODE < op['begin'] + op['size']):
+                arm.mem.add_memory('RAM', op['begin'], op['begin'] + op['size'])
+                ram = arm.mem.memories[-1].mem
+                f = _fill({'begin': op['begin'], 'end': op['begin'] + op['size'], 'fill': op['fill']})
+                ram.memory_array[0:len(f)] = f
+                # the code window was registered before it and wins where they overlap (excluded above)
+                model.devs.append((op['begin'], op['begin'] + op['size'], bytearray(f)))
+                rams.append(ram)
+                len0.append(len(ram.memory_array))
+                ctrls.append(arm.mem.memories[-1])
+            continue
         addr, size, path = op['addr'], op['size'], op['path']
         pc = position_class(model, addr, size)
         cover.add('%s|%d|%s|%s|%s' % (case['style'], size, pc, op['op'], path))
@@ -285,7 +327,7 @@ def run(case):
 
 def sample(case, res):
     return {'scenario': 'hub', 'style': case['style'], 'devices': [[hex(d['begin']), hex(d['end'])] for d in case['devices']],
-            'ops': [[o['op'], o['path'], hex(o['addr']), o['size'], hex(o['value'])] for o in case['ops'][:12]], 'n_ops': len(case['ops']),
+            'ops': [[o['op'], o['path'], hex(o['addr']), o['size'], hex(o['value'])] if 'addr' in o else [o['op'], {k: v for k, v in o.items() if k not in ('op', 'fill')}] for o in case['ops'][:12]], 'n_ops': len(case['ops']),
             'violations': res['violations'][:2]}
 
 
